@@ -238,6 +238,8 @@ def replay_history(h, hid):
     name = ["default.qubit", "null.qubit", "null.qubit", "default.mixed" if hid % 8 == 3 else "reference.qubit"][hid % 4]
     if not DEVICES[name][1] and not (exec_only and all(c["b"] == 0 for s in h["steps"] for c in s["batch"])):
         name = "null.qubit"          # the minimal devices take neither derivative calls nor broadcast parameters directly
+    if name == "reference.qubit" and any(k // 8 != 1 for s in h["steps"] for c in s["batch"] for k in c["m"]):
+        name = "default.mixed"       # reference.qubit natively executes expectation values only
     dev = make_device(name)
     p = Probe(dev, h["persistent"])
     for i, s in enumerate(h["steps"]):
@@ -256,8 +258,8 @@ def replay_history(h, hid):
 
 # ----------------------------------------------------------------------------- random QNode-level programs
 def _total(res):
-    if isinstance(res, (tuple, list)):
-        return sum(_total(r) for r in res)
+    if isinstance(res, (tuple, list)) or type(res).__name__ == "SequenceBox":          # autograd's boxed tuple
+        return sum(_total(res[i]) for i in range(len(res)))
     if isinstance(res, dict):
         return 0.0
     return pnp.sum(res)
@@ -273,16 +275,24 @@ def random_program(rng, dev_name):
     prog, depth = [], 0
     for _ in range(rng.randint(4, 9)):
         r = rng.random()
-        if r < 0.30:
+        if r < 0.27:
             a = rng.choice(["enter", "enter", "enter", "exit", "exit", "exitx", "on", "off", "reset"])
             if a in ("exit", "exitx") and depth == 0:
                 a = "enter"
             depth += 1 if a == "enter" else -1 if a in ("exit", "exitx") else 0
             prog.append(("ctl", a))
-        elif r < 0.50:
+        elif r < 0.45:
+            # the last field: apply split_non_commuting (the device is handed one tape per group: same gates, different measurements)
             prog.append(("qnode", rng.choice(["parameter-shift", "backprop", "adjoint"] if full else ["parameter-shift"]),
-                         rng.choice([None, None, 10, 25, (5, 10)]), rng.choice(list(MEAS)), rng.choice([0, 0, 2, 3])))
-        elif r < 0.75:
+                         rng.choice([None, None, 10, 25, (5, 10)]), rng.choice(list(MEAS)), rng.choice([0, 0, 2, 3]), rng.random() < 0.4))
+        elif r < 0.57:
+            # a differentiated qp.execute batch of mixed trainability: pattern[i] says whether tape i depends on the argument
+            pattern = [rng.random() < 0.5 for _ in range(rng.randint(1, 4))]
+            pattern[rng.randrange(len(pattern))] = True
+            diff = rng.choice([("adjoint", {"grad_on_execution": True}), ("adjoint", {"grad_on_execution": False}),
+                               ("adjoint", {"device_vjp": True}), ("parameter-shift", {}), ("backprop", {})] if full else [("parameter-shift", {})])
+            prog.append(("execgrad", diff, pattern, rng.randint(0, 5)))
+        elif r < 0.77:
             diff = rng.choice([("parameter-shift", {}), ("adjoint", {}), ("adjoint", {"device_vjp": True}),
                                ("adjoint", {"grad_on_execution": False}), ("backprop", {})] if full else [("parameter-shift", {})])
             shots = rng.choice([None, 10, 20, (5, 10)]) if diff[0] == "parameter-shift" else None
@@ -292,8 +302,8 @@ def random_program(rng, dev_name):
             prog.append(("execute", [{"s": rng.choice([0, 0, 5, 12, 30]), "g": rng.choice([1, 1, 2, 3]), "b": rng.choice([0, 0, 0, 2, 3]),
                                       "n": rng.randint(1, 3)} for _ in range(rng.randint(0, 3))], rng.randint(0, 5)))
         elif full:
-            prog.append(("direct", rng.choice(KINDS[1:]), [{"s": 0, "g": rng.choice([1, 2, 3]), "b": 0, "n": rng.randint(1, 3)}
-                                                           for _ in range(rng.randint(1, 3))], rng.randint(0, 5)))
+            batch = [{"s": 0, "g": rng.choice([1, 2, 3]), "b": 0, "n": rng.randint(1, 3)} for _ in range(rng.randint(1, 3))]
+            prog.append(("direct", rng.choice(KINDS[1:]), [dict(c, t=rng.randint(0, c["n"])) for c in batch], rng.randint(0, 5)))
     if not any(p[0] == "ctl" and p[1] in ("enter", "on") for p in prog):
         prog.insert(0, ("ctl", "enter"))
     return prog
@@ -329,9 +339,21 @@ def run_program(prog, dev_name, persistent):
                 return ms if len(ms) > 1 else ms[0]
             if el[0] == "qnode":
                 w = pnp.array(np.linspace(0.1, 0.9, el[4]), requires_grad=False) if el[4] else 0.4
-                circuit(x, w)
+                (qp.transforms.split_non_commuting(circuit) if len(el) > 5 and el[5] else circuit)(x, w)
             else:
                 qp.grad(lambda v: _total(circuit(v, 0.4)))(x)
+        elif el[0] == "execgrad":
+            (diff, kw), pattern, variant = el[1], el[2], el[3]
+
+            def cost(a):
+                tapes = []
+                for i, dep in enumerate(pattern):
+                    th = a * (i + 1) if dep else 0.3 + 0.1 * i
+                    ops = [qp.RX(th, 0), qp.CNOT([0, 1])] if variant % 3 == 0 or i % 2 else [qp.RY(0.5, 0), qp.RX(th, 1)]
+                    ms = [MENUS[0], MENUS[1], MENUS[7], MENUS[2]][(i + variant) % 4]()
+                    tapes.append(qp.tape.QuantumScript(ops, ms))
+                return sum(_total(r) for r in qp.execute(tapes, dev, diff_method=diff, **kw))
+            qp.grad(cost)(pnp.array(0.1, requires_grad=True))
         elif el[0] == "execute":
             tapes = [build_tape(dict(c, any_measurement=True), el[2] + i) for i, c in enumerate(el[1])]
             if tapes:
@@ -346,11 +368,17 @@ def run_program(prog, dev_name, persistent):
 
 
 # ----------------------------------------------------------------------------- TLC
-def circ(s, g, b, n):
-    return f"[s |-> {s}, g |-> {g}, b |-> {b}, n |-> {n}]"
+def circ(s, menu, b, n, t):
+    """a circuit of the model: shots, measurement menu (gives g and m), broadcast size, gates, trainable parameters"""
+    ms = MENUS[menu]()
+    return f"[s |-> {s}, g |-> {n_groups(ms)}, b |-> {b}, n |-> {n}, t |-> {t}, m |-> <<{', '.join(map(str, mcodes(ms)))}>>]"
 
 
-C1, C2, C3, C4, C5, C6 = circ(0, 1, 0, 1), circ(10, 2, 0, 2), circ(0, 3, 0, 3), circ(7, 1, 3, 2), circ(0, 2, 2, 1), circ(0, 2, 0, 2)
+# C6 and C7 have no trainable parameter; C1/C7, C2/C4 (and C6) have the same gates and different measurements
+C1, C2, C3, C4, C5, C6, C7 = (circ(0, 0, 0, 1, 1), circ(10, 7, 0, 2, 2), circ(0, 9, 0, 3, 2), circ(7, 2, 3, 2, 2), circ(0, 8, 2, 1, 1),
+                              circ(0, 7, 0, 2, 0), circ(0, 1, 0, 1, 0))
+# further measurement kinds (same two gates throughout), used by the random histories only
+C8, C9, C10, C11 = circ(5, 3, 0, 2, 2), circ(12, 5, 0, 2, 0), circ(0, 4, 0, 2, 1), circ(6, 6, 0, 2, 1)
 
 
 def calls(exec_batches, deriv_batches, kinds=KINDS[1:]):
@@ -359,10 +387,12 @@ def calls(exec_batches, deriv_batches, kinds=KINDS[1:]):
     return "{" + ", ".join(cs) + "}"
 
 
-FULL = calls([[], [C1], [C2], [C4], [C1, C2], [C2, C4], [C5, C3], [C4, C1, C2]], [[C1], [C3, C1], [C6, C3, C1]])
-MEDIUM = calls([[], [C2], [C2, C4], [C5, C3]], [[C3, C1]])
+EXEC_B, DERIV_B = [[], [C7, C1], [C2], [C4], [C1, C2], [C2, C4], [C5, C3], [C4, C1, C2]], [[C1], [C3, C7], [C6, C3, C1]]
+FULL = calls(EXEC_B, DERIV_B)
+WIDE = calls(EXEC_B + [[C8, C10], [C9, C11, C2], [C10, C6, C8]], DERIV_B + [[C7]])
+MEDIUM = calls([[], [C2], [C2, C4], [C5, C3]], [[C3, C7]])
 SMALL = calls([[C2, C4]], [])
-SMALL2 = calls([[C2, C4]], [[C3, C1]], kinds=["execute_and_compute_derivatives"])
+SMALL2 = calls([[C2, C4]], [[C3, C7]], kinds=["execute_and_compute_derivatives"])
 
 
 def sset(xs):
@@ -393,7 +423,7 @@ def generate(tier, seed, wd):
     hists.sort(key=lambda h: json.dumps(h, sort_keys=True))               # TLC's output order depends on its worker threads
     n_ex = len(hists)
     depth, num = (10, 90) if q else (18, 2000)
-    s = _tlc_mc("TrackerGen", {"Calls": FULL, "Ctl": sset(CTL), "Persist": "BOOLEAN", "PreEnter": "FALSE"}, wd / "sim",
+    s = _tlc_mc("TrackerGen", {"Calls": WIDE, "Ctl": sset(CTL), "Persist": "BOOLEAN", "PreEnter": "FALSE"}, wd / "sim",
                 constants={"MaxSteps": depth}, next_="GenNext", invariants=INVS, simulate=f"num={num}", depth=depth + 3,
                 seed=seed + 1, workers=4, timeout=3000)
     runs.append(s)
@@ -472,11 +502,38 @@ def negative_controls(tr):
         c[-1]["obs"]["hist"]["resources"].pop()
         out.append(("history-differs:resources", c))
     la = steps[i]["obs"]["latest"]
-    k = next((k for k in ALLKEYS if la[k] != -1), None)
+    k = next((k for k in NUMKEYS if la[k]), None)
     if k:
         c = clone(i)
-        c[-1]["obs"]["latest"][k] += 5
+        c[-1]["obs"]["latest"][k][0] += 5
         out.append(("latest-inconsistent-with-history", c))
+    return out
+
+
+DERIV_KINDS = ("compute_derivatives", "execute_and_compute_derivatives")
+
+
+def _same_gates_other_measurements(batch):
+    return any(a["n"] == b["n"] and a["m"] != b["m"] for i, a in enumerate(batch) for b in batch[i + 1:])
+
+
+def class_controls(tr):
+    """corruptions of the two input classes added after the first seeded trial: (label, clause, steps)"""
+    out, steps = [], tr["steps"]
+    for i, s in enumerate(steps):
+        if not (s["a"] == "call" and s["chk"] and s["obs"]["active"]):
+            continue
+        r = s["obs"]["hist"]["resources"]
+        pair = next(((a, b) for a in range(len(r)) for b in range(a + 1, len(r)) if r[a][0] == r[b][0] and r[a] != r[b]), None)
+        if pair and not any(o[0] == "resources-of-neighbour" for o in out):
+            c = json.loads(json.dumps(steps[:i + 1]))
+            c[-1]["obs"]["hist"]["resources"][pair[1]] = list(r[pair[0]])          # the entry of a circuit with the same gates
+            out.append(("resources-of-neighbour", "history-differs:resources", c))
+        if s["kind"] in DERIV_KINDS and any(x["t"] == 0 for x in s["batch"]) and not any(o[0] == "untrainable-not-counted" for o in out):
+            c = json.loads(json.dumps(steps[:i + 1]))
+            c[-1]["obs"]["tot"]["derivatives"] -= 1
+            c[-1]["obs"]["hist"]["derivatives"][-1] -= 1
+            out.append(("untrainable-not-counted", "totals-differ:derivatives", c))
     return out
 
 
@@ -519,21 +576,38 @@ def run(tier, seed):
     for i in range(n_prog):
         name = names[i % len(names)]
         prog = random_program(rng, name)
+        if i % 6 == 1:          # default.qubit: make sure device derivatives of a batch of mixed trainability occur while active
+            kw = [{"grad_on_execution": True}, {"grad_on_execution": False}, {"device_vjp": True}][(i // 6) % 3]
+            pattern = [rng.random() < 0.5 for _ in range(rng.randint(2, 4))]
+            pattern[rng.randrange(len(pattern))], pattern[rng.randrange(len(pattern))] = True, False
+            if not any(pattern):
+                pattern[0] = True
+            prog = [("ctl", "enter"), ("execgrad", ("adjoint", kw), pattern, rng.randint(0, 5))] + prog
         traces.append(run_program(prog, name, persistent=rng.random() < 0.4))
     _dbg(t0, "programs done")
     # negative controls
-    negs = []
+    negs, n_all = [], len(traces)
     cand = [i for i, t in enumerate(traces) if any(s["a"] == "call" and s["obs"]["active"] and len(s["obs"]["hist"]["resources"]) >= 2
                                                    and s["obs"]["tot"]["shots"] > 0 for s in t["steps"])]
     for i in rng.sample(cand, min(len(cand), 6)):
         for clause, steps in negative_controls(traces[i]):
-            negs.append((len(traces), clause, i))
+            negs.append((len(traces), clause, i, clause))
             traces.append({"persistent": traces[i]["persistent"], "dev": traces[i]["dev"], "src": "neg", "steps": steps})
+    n_class = {"resources-of-neighbour": 0, "untrainable-not-counted": 0}
+    for i in range(n_all):
+        if min(n_class.values()) >= 3:
+            break
+        for label, clause, steps in class_controls(traces[i]):
+            if n_class[label] < 3:
+                n_class[label] += 1
+                negs.append((len(traces), clause, i, label))
+                traces.append({"persistent": traces[i]["persistent"], "dev": traces[i]["dev"], "src": "neg", "steps": steps})
     r, verd = validate(traces, wd)
     _dbg(t0, f"trace validation done (TLC {r.wall_s:.1f}s)")
-    want = {"totals-differ:executions", "totals-differ:shots", "history-differs:resources", "latest-inconsistent-with-history"}
-    rejected = {c for (i, c, b) in negs if verd[i][0] == c}
-    wrong = [(c, verd[i][0]) for (i, c, b) in negs if verd[i][0] == "ok" or (verd[b][0] == "ok" and verd[i][0] != c)]
+    want = {"totals-differ:executions", "totals-differ:shots", "history-differs:resources", "latest-inconsistent-with-history",
+            "resources-of-neighbour", "untrainable-not-counted"}
+    rejected = {lab for (i, c, b, lab) in negs if verd[i][0] == c}
+    wrong = [(lab, verd[i][0]) for (i, c, b, lab) in negs if verd[i][0] == "ok" or (verd[b][0] == "ok" and verd[i][0] != c)]
     impl_clean = all(verd[i][0] == "ok" for i in range(len(traces)) if traces[i]["src"] != "neg")
     if wrong or (impl_clean and rejected != want):
         raise lib.MachineryError(f"negative controls: clauses rejected {sorted(rejected)}; wrong answers {wrong[:3]}")
@@ -544,6 +618,8 @@ def run(tier, seed):
     nontriv, samples = set(), []
     feats = {"calls_while_inactive": 0, "persistent_reentry": 0, "nested_context": 0, "reset": 0, "exit_by_exception": 0,
              "finite_shots": 0, "shot_vector_or_multi_group": 0, "broadcast": 0, "empty_batch": 0, "nested_entry_calls": 0}
+    cls = {src: {"same_gates_other_measurements_in_executed_batch": 0, "derivative_batch_with_untrainable_circuit": 0,
+                 "derivative_batch_all_untrainable": 0, "jvp_vjp_batch_with_untrainable_circuit": 0} for src in ("replay", "program")}
     for i, t in enumerate(traces):
         if t["src"] == "neg":
             continue
@@ -569,6 +645,12 @@ def run(tier, seed):
                 feats["broadcast"] += any(c["b"] for c in s["batch"])
                 feats["empty_batch"] += not s["batch"]
                 feats["nested_entry_calls"] += not s["chk"]
+                if s["obs"]["active"]:
+                    f, unt = cls[t["src"]], [c["t"] == 0 for c in s["batch"]]
+                    f["same_gates_other_measurements_in_executed_batch"] += s["kind"] == "execute" and _same_gates_other_measurements(s["batch"])
+                    f["derivative_batch_with_untrainable_circuit"] += s["kind"] in DERIV_KINDS and any(unt)
+                    f["derivative_batch_all_untrainable"] += s["kind"] in DERIV_KINDS and bool(unt) and all(unt)
+                    f["jvp_vjp_batch_with_untrainable_circuit"] += s["kind"] not in DERIV_KINDS + ("execute",) and any(unt)
             elif s["a"] == "enter":
                 depth += 1
                 feats["nested_context"] += depth >= 2
@@ -587,6 +669,10 @@ def run(tier, seed):
                                 "final_totals": {k: v for k, v in t["steps"][-1]["obs"]["tot"].items() if v}, "verdict": v})
     if min(kinds_seen.values()) == 0:
         raise lib.MachineryError(f"vacuity: entry point never exercised: {kinds_seen}")
+    for src in cls:
+        for k in ("same_gates_other_measurements_in_executed_batch", "derivative_batch_with_untrainable_circuit"):
+            if cls[src][k] == 0:
+                raise lib.MachineryError(f"vacuity: no {k} among the {src} traces")
     prog_kinds = {k: 0 for k in KINDS}
     for t in traces:
         if t["src"] == "program":
@@ -603,8 +689,8 @@ def run(tier, seed):
            "model": {"module": "Tracker", "invariants": INVS, "states": runs[0].distinct, "violated": model_bad},
            "histories_exhaustive": n_ex, "histories_random": n_rep - n_ex, "qnode_programs": n_prog,
            "replay_final_state_mismatches": n_final_bad, "entry_point_calls": kinds_seen, "entry_point_calls_from_qnode_programs": prog_kinds,
-           "features": feats, "model_drift_traces": drift, "traces_with_keys_outside_the_documented_set": extra,
-           "violating_traces_by_clause": nviol, "negative_controls_rejected": len(negs), "negative_control_clauses": sorted(rejected)}
+           "features": feats, "input_classes_while_active": cls, "model_drift_traces": drift, "traces_with_keys_outside_the_documented_set": extra,
+           "violating_traces_by_clause": nviol, "negative_controls_rejected": len([1 for (i, c, b, lab) in negs if verd[i][0] == c]), "negative_control_clauses": sorted(rejected)}
     return CheckResult(coverage=cov, violations=viol, assumptions=[
         "`executions` and `shots` follow the simulator_tracking documentation: one execution per group of commuting measurements and per "
         "broadcast parameter value, shots = total shots x executions; circuits only use measurement sets whose grouping is unambiguous "
